@@ -21,25 +21,26 @@ bool vc_spurious_fail(void);
 
 #define VC_AS_WORD(x) ((uintptr_t)(x))
 
+/* every macro evaluates its pointer argument exactly once (call sites pass `field++`) */
 #define atomic_load_explicit(p, mo) \
-  ({ vc_interfere((void*)(p), sizeof(*(p))); *(p); })
+  ({ __typeof__(p) vc_p = (p); vc_interfere((void*)vc_p, sizeof(*vc_p)); *vc_p; })
 #define atomic_store_explicit(p, v, mo) \
-  ({ vc_interfere((void*)(p), sizeof(*(p))); __typeof__(*(p)) vc_o = *(p); __typeof__(*(p)) vc_n = (v); *(p) = vc_n; \
-     vc_atomic_wrote((void*)(p), VC_AS_WORD(vc_o), VC_AS_WORD(vc_n)); (void)0; })
+  ({ __typeof__(p) vc_p = (p); vc_interfere((void*)vc_p, sizeof(*vc_p)); __typeof__(*vc_p) vc_o = *vc_p; __typeof__(*vc_p) vc_n = (v); *vc_p = vc_n; \
+     vc_atomic_wrote((void*)vc_p, VC_AS_WORD(vc_o), VC_AS_WORD(vc_n)); (void)0; })
 #define atomic_exchange_explicit(p, v, mo) \
-  ({ vc_interfere((void*)(p), sizeof(*(p))); __typeof__(*(p)) vc_o = *(p); __typeof__(*(p)) vc_n = (v); *(p) = vc_n; \
-     vc_atomic_wrote((void*)(p), VC_AS_WORD(vc_o), VC_AS_WORD(vc_n)); vc_o; })
+  ({ __typeof__(p) vc_p = (p); vc_interfere((void*)vc_p, sizeof(*vc_p)); __typeof__(*vc_p) vc_o = *vc_p; __typeof__(*vc_p) vc_n = (v); *vc_p = vc_n; \
+     vc_atomic_wrote((void*)vc_p, VC_AS_WORD(vc_o), VC_AS_WORD(vc_n)); vc_o; })
 #define atomic_compare_exchange_strong_explicit(p, e, d, ms, mf) \
-  ({ vc_interfere((void*)(p), sizeof(*(p))); __typeof__(*(p)) vc_o = *(p); bool vc_r = (vc_o == *(e)); \
-     if (vc_r) { __typeof__(*(p)) vc_n = (d); *(p) = vc_n; vc_atomic_wrote((void*)(p), VC_AS_WORD(vc_o), VC_AS_WORD(vc_n)); } \
-     else { *(e) = vc_o; } vc_r; })
+  ({ __typeof__(p) vc_p = (p); __typeof__(e) vc_e = (e); vc_interfere((void*)vc_p, sizeof(*vc_p)); __typeof__(*vc_p) vc_o = *vc_p; bool vc_r = (vc_o == *vc_e); \
+     if (vc_r) { __typeof__(*vc_p) vc_n = (d); *vc_p = vc_n; vc_atomic_wrote((void*)vc_p, VC_AS_WORD(vc_o), VC_AS_WORD(vc_n)); } \
+     else { *vc_e = vc_o; } vc_r; })
 #define atomic_compare_exchange_weak_explicit(p, e, d, ms, mf) \
-  ({ vc_interfere((void*)(p), sizeof(*(p))); __typeof__(*(p)) vc_o = *(p); bool vc_r = (vc_o == *(e)) && !vc_spurious_fail(); \
-     if (vc_r) { __typeof__(*(p)) vc_n = (d); *(p) = vc_n; vc_atomic_wrote((void*)(p), VC_AS_WORD(vc_o), VC_AS_WORD(vc_n)); } \
-     else { *(e) = vc_o; } vc_r; })
+  ({ __typeof__(p) vc_p = (p); __typeof__(e) vc_e = (e); vc_interfere((void*)vc_p, sizeof(*vc_p)); __typeof__(*vc_p) vc_o = *vc_p; bool vc_r = (vc_o == *vc_e) && !vc_spurious_fail(); \
+     if (vc_r) { __typeof__(*vc_p) vc_n = (d); *vc_p = vc_n; vc_atomic_wrote((void*)vc_p, VC_AS_WORD(vc_o), VC_AS_WORD(vc_n)); } \
+     else { *vc_e = vc_o; } vc_r; })
 #define VC_FETCH_OP(p, v, op) \
-  ({ vc_interfere((void*)(p), sizeof(*(p))); __typeof__(*(p)) vc_o = *(p); __typeof__(*(p)) vc_n = (__typeof__(*(p)))(vc_o op (v)); *(p) = vc_n; \
-     vc_atomic_wrote((void*)(p), VC_AS_WORD(vc_o), VC_AS_WORD(vc_n)); vc_o; })
+  ({ __typeof__(p) vc_p = (p); vc_interfere((void*)vc_p, sizeof(*vc_p)); __typeof__(*vc_p) vc_o = *vc_p; __typeof__(*vc_p) vc_n = (__typeof__(*vc_p))(vc_o op (v)); *vc_p = vc_n; \
+     vc_atomic_wrote((void*)vc_p, VC_AS_WORD(vc_o), VC_AS_WORD(vc_n)); vc_o; })
 #define atomic_fetch_add_explicit(p, v, mo) VC_FETCH_OP(p, v, +)
 #define atomic_fetch_sub_explicit(p, v, mo) VC_FETCH_OP(p, v, -)
 #define atomic_fetch_and_explicit(p, v, mo) VC_FETCH_OP(p, v, &)
